@@ -432,6 +432,9 @@ func Block(c Cond) {
 		s.Deadlock = s.describeBlocked()
 		s.aborted = true
 		s.cur = nil
+		// what this task wrote (the description above, its own harness-side state) happens before what the harness
+		// goroutine reads after Run returns: the hand-over below is invisible to the race detector, this edge is not
+		RaceReleaseMerge(&s.joinAddr)
 		RaceDisable()
 		s.mainCh <- struct{}{}
 		<-t.wake // never resumed
